@@ -3,7 +3,7 @@ module level (hidden state that makes a function's result depend on the
 history of earlier calls)."""
 import ast
 
-from .core import dotted
+from .core import dotted, short
 
 MUT_METHODS = {"append", "extend", "insert", "pop", "remove", "clear", "update", "setdefault", "add", "discard", "popitem", "appendleft", "popleft", "sort", "reverse"}
 CTORS = {"dict", "list", "set", "OrderedDict", "defaultdict", "deque", "bytearray", "Counter", "WeakKeyDictionary", "WeakValueDictionary"}
@@ -202,3 +202,72 @@ def rule(repo, res, rid, modules, sanctioned=None, what=""):
                 continue
             bad.append("%s: %s (%s)" % (q, g, how))
         res.check(not bad, rid, "no-state-between-calls:%s" % name, m.rel, "functions of this module keep state between calls -- %s -- so %s can depend on what was computed earlier in the same process" % ("; ".join(sorted(set(bad))), what or "their results"), by="no module-level container is mutated by a function, no memoising decorator, no mutated default, no function attribute, no shared class-level container")
+
+
+# ---------------------------------------------------------------------------
+# parameter mutation (an input shared between callers must not be edited)
+# ---------------------------------------------------------------------------
+
+class ParamMutation(object):
+    """does function f mutate (the object passed as) its i-th parameter?  Direct
+    item/attribute stores and mutator-method calls on the parameter or on
+    subscripts of it, through one-step local aliases, and transitively through
+    resolved callees that receive the parameter (or a subscript of it)."""
+
+    def __init__(self, repo, follow_prefixes=("vc2_conformance.",)):
+        self.repo = repo
+        self.follow = follow_prefixes
+        self.memo = {}
+
+    def root_name(self, e):
+        while isinstance(e, (ast.Subscript, ast.Attribute)):
+            e = e.value
+        return e.id if isinstance(e, ast.Name) else None
+
+    def mutations(self, m, fn, index, stack=()):
+        key = (m.name, fn.name, fn.lineno, index)
+        if key in self.memo:
+            return self.memo[key]
+        if key in stack:
+            return []
+        args = fn.args.posonlyargs + fn.args.args
+        if index >= len(args):
+            return []
+        pname = args[index].arg
+        names = {pname}
+        rebinds = sorted(n.lineno for n in ast.walk(fn) if isinstance(n, ast.Name) and n.id == pname and isinstance(n.ctx, ast.Store))
+        first_rebind = rebinds[0] if rebinds else None
+        # one-step aliases: x = param / x = param[...]
+        for a in ast.walk(fn):
+            if isinstance(a, ast.Assign) and len(a.targets) == 1 and isinstance(a.targets[0], ast.Name) and self.root_name(a.value) == pname and isinstance(a.value, (ast.Name, ast.Subscript)) and (first_rebind is None or a.lineno < first_rebind):
+                names.add(a.targets[0].id)
+        out = []
+
+        def live(node):
+            return first_rebind is None or node.lineno < first_rebind or self.root_name(node) != pname
+
+        for n in ast.walk(fn):
+            tg = []
+            if isinstance(n, ast.Assign):
+                tg = n.targets
+            elif isinstance(n, ast.AugAssign):
+                tg = [n.target]
+            elif isinstance(n, ast.Delete):
+                tg = n.targets
+            for t in tg:
+                for y in (t.elts if isinstance(t, (ast.Tuple, ast.List)) else [t]):
+                    if isinstance(y, (ast.Subscript, ast.Attribute)) and self.root_name(y) in names and live(y):
+                        out.append((m, fn, n, "stores into `%s`" % short(y, 50)))
+            if isinstance(n, ast.Call) and isinstance(n.func, ast.Attribute) and n.func.attr in MUT_METHODS and self.root_name(n.func.value) in names and live(n.func.value):
+                out.append((m, fn, n, "calls .%s() on `%s`" % (n.func.attr, short(n.func.value, 40))))
+            if isinstance(n, ast.Call) and isinstance(n.func, ast.Name):
+                tgt = self.repo.resolve(m.name, n.func.id)
+                if tgt is None or getattr(tgt, "kind", None) != "func" or not tgt.mod.startswith(self.follow):
+                    continue
+                for j, a in enumerate(n.args):
+                    if isinstance(a, (ast.Name, ast.Subscript)) and self.root_name(a) in names and live(a):
+                        sub = self.mutations(self.repo.mod(tgt.mod), tgt.node, j, stack + (key,))
+                        for sm, sf, sn, how in sub[:1]:
+                            out.append((m, fn, n, "passes `%s` to %s, which %s (%s:%d)" % (short(a, 30), tgt.name, how, sm.rel, sn.lineno)))
+        self.memo[key] = out
+        return out
